@@ -139,7 +139,7 @@ func planSafes(rng *rand.Rand, minor, n int) (ops map[int]safePlan, creator *saf
 		}
 	}
 	e := 2 + rng.Intn(3)
-	creator = &safePlan{entries: e, threshold: 1 + rng.Intn(e)}
+	creator = &safePlan{entries: e, threshold: 1 + rng.Intn(e-1)} // always at least one unchecked trailing entry
 
 	return ops, creator
 }
